@@ -11,15 +11,16 @@ use std::io::Read;
 
 fn main() {
     bvh::quiet_panics();
-    let mut input = String::new();
-    std::io::stdin().read_to_string(&mut input).unwrap();
-    let mut cases: Vec<(String, String)> = Vec::new();
-    for line in input.lines() {
-        if let Some(h) = line.strip_prefix("//// ") {
-            cases.push((h.to_string(), String::new()));
+    // the input is bytes: script bodies need not be valid UTF-8 (C02 feeds raw byte strings)
+    let mut input: Vec<u8> = Vec::new();
+    std::io::stdin().read_to_end(&mut input).unwrap();
+    let mut cases: Vec<(String, Vec<u8>)> = Vec::new();
+    for line in input.split(|b| *b == b'\n') {
+        if let Some(h) = line.strip_prefix(b"//// ") {
+            cases.push((String::from_utf8_lossy(h).into_owned(), Vec::new()));
         } else if let Some(c) = cases.last_mut() {
-            c.1.push_str(line);
-            c.1.push('\n');
+            c.1.extend_from_slice(line);
+            c.1.push(b'\n');
         }
     }
     let mut shared: Option<boa_engine::Context> = None;
@@ -57,7 +58,7 @@ fn main() {
         boa_engine::verif::record_ic_events(ic_rec);
         let _ = boa_engine::verif::take_ic_events();
         boa_ast::scope::verif::set_conservative(cons);
-        let src = body.into_bytes();
+        let src = body;
         let mut cell = Some(ctx);
         let t = guarded(std::panic::AssertUnwindSafe(|| {
             let c = cell.as_mut().unwrap();
